@@ -83,6 +83,9 @@ func NewNode(cfg *GenesisCfg, el *ELSim, db dbm.DB) (*Node, error) {
 		"mempool.max-txs":         0,
 		"app-db-backend":          "memdb",
 	}
+	for k, v := range LocalOpts {
+		opts[k] = v
+	}
 	lg := newErrLog()
 	a, err := app.New(lg, db, nil, true, opts, server.DefaultBaseappOptions(opts)...)
 	if err != nil {
@@ -92,6 +95,12 @@ func NewNode(cfg *GenesisCfg, el *ELSim, db dbm.DB) (*Node, error) {
 	n.TxCfg = authtx.NewTxConfig(codec.NewProtoCodec(a.AppCodec().InterfaceRegistry()), authtx.DefaultSignModes)
 	return n, nil
 }
+
+// LocalOpts are node-local settings (what an operator writes into app.toml or passes as flags)
+// laid over the harness's defaults for every application instance this process creates. They are
+// no part of the replicated state machine: a replica started with other values must compute the
+// same results.
+var LocalOpts = map[string]any{}
 
 // LoggedErrors returns (and forgets) the application's most recent error log records.
 func (n *Node) LoggedErrors() string {
